@@ -14,7 +14,7 @@ structure KernOK (K : Kern) (q : Rat) : Prop where
   cluster_len : ∀ l t pts, (K.cluster l t pts).length = pts.length
   /-- A2: one component per value, numbered below `n` -/
   gmm_len : ∀ s vals n, (K.gmm s vals n).labels.length = vals.length
-  gmm_lt : ∀ s vals n, ∀ l ∈ (K.gmm s vals n).labels, l < n
+  gmm_lt : ∀ s vals n, 1 ≤ n → ∀ l ∈ (K.gmm s vals n).labels, l < n
   bestProb_lt : ∀ ab mp, ab ≠ [] → K.bestProb ab mp < ab.length
   argsort_perm : ∀ l, isPermOf (K.argsort l) l.length = true
   argsort_sorted : ∀ l, (applyPerm (K.argsort l) l).Pairwise (· ≤ ·)
